@@ -8,4 +8,4 @@ package commitments
 //@   props C06 C16
 //@   requires forall k in 0..len(secrets) :: secrets[k] != nil
 //@   loop 0 invariant 0 <= el && len(parts) <= 3
-//@   loop 0 invariant !isLenEl ==> nextPartLen <= 1048576
+//@   loop 0 invariant [partlen] !isLenEl ==> (0 <= nextPartLen && nextPartLen <= 1048576)
